@@ -209,7 +209,7 @@ def zeroScalar : Schema → Scalar
   | _ => .msg
 
 /-- `~` denotes the unset field: for a field without presence that is the zero value / empty list -/
-def parseVal (p : Property) (tok : String) : Option FieldVal :=
+def parseVal (optPres : Bool) (p : Property) (tok : String) : Option FieldVal :=
   match p.schema with
   | .array s _ _ =>
     if tok == "~" then some (.list [])
@@ -218,7 +218,7 @@ def parseVal (p : Property) (tok : String) : Option FieldVal :=
       if inner.isEmpty then some (.list []) else ((inner.splitOn ",").mapM (parseScalar s)).map FieldVal.list
     else none
   | .single s =>
-    if tok == "~" then (if p.hasPresence then some .absent else some (.single (zeroScalar s)))
+    if tok == "~" then (if p.hasPresence optPres then some .absent else some (.single (zeroScalar s)))
     else (parseScalar s tok).map FieldVal.single
 
 /-! ## the small regex class (the same class the harness's oracle implements) -/
